@@ -384,6 +384,17 @@ def main():
             rep.violation('%s: the system calls of %s are %s, not the protocol of the model (coq/Store/%s) for which the crash theorems are proved' % (
                 r['label'], json.dumps(r['action'])[:60], r['protocol'], 'FileArch.v: save' if fam == 'file' else 'DirProto.v: store / remove'),
                 {'broken': 'correspondence of the %s archive write protocol with its Coq model' % fam, 'backend': r['label'], 'pre': r['pre'], 'action': r['action'], 'protocol': r['protocol']}, no_input=True)
+    # ---- the SQL statements of every operation (sqlite trace callback) == the model's statement list, one commit each
+    sql_bad, sql_n = [], 0
+    if pinfo.get('build_ok'):
+        try:
+            from check_c03 import sql_rows_check
+            sql_bad, sql_n = sql_rows_check(sd, 120 if thorough else 30)
+        except Exception as e:
+            sql_bad = [('sql_rows_check', repr(e), '')]
+    if sql_bad:
+        rep.violation('the statements sqltable_archive issues differ from the model (coq/Store/SqlCrash.v: sql_stmts, one commit per statement): after %r the model gives %r, the table %r' % sql_bad[0],
+                      {'broken': 'correspondence of sqltable_archive statements with SqlCrash.sql_stmts (premise of C13_sql_op_crash_prefix)', 'cases': sql_bad[:5]}, no_input=True)
     if points and skipped * 10 > points:
         rep.violation('crash coverage lost: %d of %d crash runs did not follow the recorded system-call trace' % (skipped, points),
                       {'broken': 'C13 crash injection (deterministic replay of the recorded trace)', 'examples': [r['skips'][0] for r in results if r.get('skips')][:3]}, no_input=True)
@@ -408,7 +419,7 @@ def main():
                             'strace 6 signal injection (the kill is delivered on entering the system call, before it executes)',
                             'the abstraction of system-call traces to the action alphabets of coq/Store/FileArch.v and DirProto.v (harness/check_c13.py: abstract_file, abstract_dir)',
                             'crash = process death; the kernel completes or does not start each system call (no torn metadata, no power loss: data reaches the page cache)',
-                            'sqlite3 journalling'],
+                            'sqlite3 journalling (each statement + commit is atomic); the statement sequence itself is compared with the model on %d model commands this run' % sql_n],
            'theorems': pinfo.get('theorems', []), 'print_assumptions': pinfo.get('print_assumptions', ''),
            'evaluations': points, 'distinct_nontrivial': points - skipped,
            'rule': 'one evaluation = one (archive configuration, prior contents, operation, crash point) - the process is killed before one file-system-changing system call of the operation, and a fresh process reads the archive (directly and through cache.load()); every such call of every scenario is covered',
